@@ -169,6 +169,9 @@ class ModelView(object):
         })
         # checkEquation is a trusted leaf: Parse(string) with the model's symbol tables
         vc.summary('pygom.model._model_verification:checkEquation', self.check_equation)
+        # ... which is only sound if it keeps no state between calls: its frame condition is checked on the source (pyvc/frame.py)
+        if 'pygom.model._model_verification:checkEquation' not in vc.contract.frame:
+            vc.contract.frame.append('pygom.model._model_verification:checkEquation')
 
     def check_equation(self, it, args, kw):
         it.ctx.note_trusted("_model_verification.checkEquation(string, tables): Parse(string), the sympy expression the user wrote (eval/exec/parse_expr inside it are not executed; derived parameters are substituted by it)")
